@@ -323,6 +323,26 @@ theorem C10_every_request_of_a_history (start : Start) (ops : List Op)
   rw [C10_history_has_no_memory _ uses pa h]
   exact C10_construction_dispatch start ops hs ho pa.1
 
+/-- **Reconfigured after use.**  A router that has already answered requests (itself and through
+clones) and is then given more services, any number of times: every request is answered by the
+table as it stood in its own round — the services registered up to then, no trace of what was
+asked before. -/
+theorem C10_reconfigured_after_use (rounds : List (List Use × Svc)) (last : List Use) :
+    ∀ (t : Table), ∀ pa ∈ Proc.rounds t rounds last, ∃ k, k ≤ rounds.length ∧
+      pa.2 = ((rounds.take k).foldl (fun t r => t.addService r.2) t).serve pa.1 := by
+  induction rounds with
+  | nil =>
+    intro t pa h
+    exact ⟨0, Nat.le_refl _, by simpa using C10_history_has_no_memory t last pa h⟩
+  | cons r rest ih =>
+    intro t pa h
+    obtain ⟨us, s⟩ := r
+    simp only [Proc.rounds, List.mem_append] at h
+    rcases h with h | h
+    · exact ⟨0, Nat.zero_le _, by simpa using C10_history_has_no_memory t us pa h⟩
+    · obtain ⟨k, hk, hpa⟩ := ih (t.addService s) pa h
+      exact ⟨k + 1, by simpa using hk, by simpa [List.take_succ_cons] using hpa⟩
+
 /-- A clone answers like the value it was cloned from, before and after either was used. -/
 theorem C10_clone_answers_alike (t : Table) (pre post : List Use) (path : Bytes) :
     ∀ pa ∈ Proc.answers ⟨[t]⟩ (pre ++ [.clone 0] ++ post ++ [.call 0 path, .call 1 path]),
@@ -399,6 +419,8 @@ example : (Proc.answers ⟨[⟨reg0, [], .unimplemented⟩]⟩
      .call 7 (bs "/a.S/M")]).map (·.2)
     = [.tonic (.handler (bs "a.S") (bs "M")), .tonic (.handler (bs "a.Sv") (bs "M")), .tonic (.svcDefault (bs "a.S")),
        .tonic (.handler (bs "a.S") (bs "M"))] := by decide
+example : (Proc.rounds ⟨[s0], [], .unimplemented⟩ [([.call 0 (bs "/S/M")], s1)] [.call 0 (bs "/S/M")]).map (·.2)
+    = [.tonic .fallback, .tonic (.handler (bs "S") (bs "M"))] := by decide
 example : dispatch (reg0 ++ [⟨bs "x.Empty", []⟩]) (bs "/x.Empty/M") = .svcDefault (bs "x.Empty") := by decide
 
 end C10
